@@ -336,12 +336,28 @@ func run(id, tier string, seed uint64) int {
 					subName = meta.Subs[p.sub].Name
 				}
 				reason := s.killedFor
+				outside := false
 				if reason == "" {
 					reason = fmt.Sprintf("worker died: %v", werr)
+					// a worker ended by SIGTERM / SIGKILL / SIGINT / SIGHUP that this runner did not send (it sends SIGQUIT) was
+					// stopped from outside - an operator, another job's clean-up - and says nothing about the library: the case
+					// is inconclusive, not a violation. (A crash of the worker itself - a runtime fatal error, SIGSEGV, SIGABRT -
+					// still is one.)
+					if ee, ok := werr.(*exec.ExitError); ok {
+						if ws, ok := ee.Sys().(syscall.WaitStatus); ok && ws.Signaled() {
+							switch ws.Signal() {
+							case syscall.SIGTERM, syscall.SIGKILL, syscall.SIGINT, syscall.SIGHUP:
+								outside = true
+								inconclusive = append(inconclusive, fmt.Sprintf("shard %d: worker stopped from outside (%v) in sub-check %s case %d", s.id, ws.Signal(), subName, p.idx))
+							}
+						}
+					}
 				}
 				logTxt := head(base+".log", 6000)
-				extraViol = append(extraViol, h.Viol{Prop: id, Sub: subName, Idx: p.idx, Seed: seed, Tier: tier,
-					Msg: reason, Detail: map[string]interface{}{"log_head": logTxt, "input_note_hex": fmt.Sprintf("%x", p.note), "input_note": string(p.note)}})
+				if !outside {
+					extraViol = append(extraViol, h.Viol{Prop: id, Sub: subName, Idx: p.idx, Seed: seed, Tier: tier,
+						Msg: reason, Detail: map[string]interface{}{"log_head": logTxt, "input_note_hex": fmt.Sprintf("%x", p.note), "input_note": string(p.note)}})
+				}
 				s.restarts++
 				totalRestarts++
 				if !okp || s.restarts > 40 || totalRestarts > 64 {
@@ -629,20 +645,20 @@ func run(id, tier string, seed uint64) int {
 		samples = append(samples, json.RawMessage(`"no sample recorded"`))
 	}
 	cov := map[string]interface{}{
-		"evaluations":            total.Evals,
-		"distinct_nontrivial":    distinct,
-		"rule":                   rule,
-		"samples":                samples,
-		"exhaustive":             allExh,
-		"sub_checks":             subEv,
-		"counts":                 total.Counts,
-		"maxima":                 total.Maxes,
-		"maxima_where":           total.MaxDetail,
-		"known_findings_matched": knownMatched,
+		"evaluations":             total.Evals,
+		"distinct_nontrivial":     distinct,
+		"rule":                    rule,
+		"samples":                 samples,
+		"exhaustive":              allExh,
+		"sub_checks":              subEv,
+		"counts":                  total.Counts,
+		"maxima":                  total.Maxes,
+		"maxima_where":            total.MaxDetail,
+		"known_findings_matched":  knownMatched,
 		"unclassified_violations": unclassified,
-		"inconclusive":           len(inconclusive) > 0,
-		"inconclusive_reasons":   inconclusive,
-		"workers":                nshards,
+		"inconclusive":            len(inconclusive) > 0,
+		"inconclusive_reasons":    inconclusive,
+		"workers":                 nshards,
 	}
 	if fuzzExecs != nil {
 		cov["fuzz_executions"] = fuzzExecs
